@@ -3,7 +3,7 @@
     lemma proved elsewhere, with [Print Assumptions] beneath.  bin/pqv
     re-checks every statement with [Check (name : forall ..., statement)] and
     every [Print Assumptions] on each run. *)
-From PQV Require Import AbsPQProofs AbsCostProofs ListProofs IterProofs UnwindProofs Final.
+From PQV Require Import AbsPQProofs AbsCostProofs ListProofs IterProofs UnwindProofs HashIndep Final.
 From PQV Require Export PropSpec.
 
 (* C01 *)
@@ -305,3 +305,8 @@ Print Assumptions C10_unwind_step.
 Theorem C10_unwind_run : forall (I P : Type) (keq : I -> I -> bool) (hash : I -> N) (ple : P -> P -> bool) (peq : P -> P -> bool) (alloc_limit : N), run_unwind_safe_stmt keq hash ple peq alloc_limit.
 Proof. intros; apply @UnwindProofs.run_unwind_safe. Qed.
 Print Assumptions C10_unwind_run.
+
+(* C18 *)
+Theorem C18_run : forall (I P : Type) (keq : I -> I -> bool) (ple : P -> P -> bool) (peq : P -> P -> bool) (alloc_limit : N), C18_run_stmt keq ple peq alloc_limit.
+Proof. intros; apply @HashIndep.C18_run_thm. Qed.
+Print Assumptions C18_run.
